@@ -47,7 +47,7 @@ fn ev_proj(e: &TerminalEvent) -> Value {
     json!({"k": "ev", "d": format!("{:?}", e), "b": [], "f": f, "n": n})
 }
 
-fn run_dec(dec: &str, input: &[u8], sizes: &[usize]) -> Value {
+fn run_dec(dec: &str, input: &[u8], sizes: &[usize], into: bool) -> Value {
     let mut off = 0;
     let mut got: Vec<Value> = Vec::new();
     let tail;
@@ -56,32 +56,56 @@ fn run_dec(dec: &str, input: &[u8], sizes: &[usize]) -> Value {
         let mut d = TTYEventDecoder::new();
         for s in sizes {
             let mut cur = Cursor::new(&input[off..off + s]);
-            while let Some(e) = d.decode(&mut cur).unwrap() {
-                got.push(ev_proj(&e));
-                calls += 1;
-                assert!(calls < 100_000, "decoder does not terminate");
+            if into {
+                // the bulk entry point: everything the read yields, in one call
+                let mut items = Vec::new();
+                d.decode_into(&mut cur, &mut items).unwrap();
+                got.extend(items.iter().map(ev_proj));
+            } else {
+                while let Some(e) = d.decode(&mut cur).unwrap() {
+                    got.push(ev_proj(&e));
+                    calls += 1;
+                    assert!(calls < 100_000, "decoder does not terminate");
+                }
             }
             off += s;
         }
+        // once the input is exhausted nothing more may be available, through either entry point
         let mut more = Vec::new();
-        d.decode_into(&[][..], &mut more).unwrap();
+        while let Some(e) = d.decode(&mut Cursor::new(&[][..])).unwrap() {
+            more.push(ev_proj(&e));
+            assert!(more.len() < 100_000, "decoder does not terminate");
+        }
+        d.decode_into(&[][..], &mut Vec::new()).unwrap();
         tail = more.len();
     } else {
         let mut d = TTYCommandDecoder::new();
         for s in sizes {
             let mut cur = Cursor::new(&input[off..off + s]);
-            while let Some(e) = d.decode(&mut cur).unwrap() {
-                got.push(cmd_proj(&e));
-                calls += 1;
-                assert!(calls < 100_000, "decoder does not terminate");
+            if into {
+                // the bulk entry point: everything the read yields, in one call
+                let mut items = Vec::new();
+                d.decode_into(&mut cur, &mut items).unwrap();
+                got.extend(items.iter().map(cmd_proj));
+            } else {
+                while let Some(e) = d.decode(&mut cur).unwrap() {
+                    got.push(cmd_proj(&e));
+                    calls += 1;
+                    assert!(calls < 100_000, "decoder does not terminate");
+                }
             }
             off += s;
         }
+        // once the input is exhausted nothing more may be available, through either entry point
         let mut more = Vec::new();
-        d.decode_into(&[][..], &mut more).unwrap();
+        while let Some(e) = d.decode(&mut Cursor::new(&[][..])).unwrap() {
+            more.push(cmd_proj(&e));
+            assert!(more.len() < 100_000, "decoder does not terminate");
+        }
+        d.decode_into(&[][..], &mut Vec::new()).unwrap();
         tail = more.len();
     }
-    json!({"dec": dec, "chunks": sizes, "ev": got, "tail": tail})
+    json!({"dec": dec, "chunks": sizes, "ev": got, "tail": tail, "into": into})
 }
 
 fn run_utf8(input: &[u8], sizes: &[usize]) -> Value {
@@ -121,8 +145,12 @@ pub fn run(args: &[String]) {
             let mut utf8 = Vec::new();
             for name in ["whole", "bytes", "random"] {
                 let sizes = chunking(name, input.len(), &mut rnd);
-                runs.push(run_dec("event", &input, &sizes));
-                runs.push(run_dec("command", &input, &sizes));
+                runs.push(run_dec("event", &input, &sizes, false));
+                runs.push(run_dec("command", &input, &sizes, false));
+                if name != "bytes" {
+                    runs.push(run_dec("event", &input, &sizes, true));
+                    runs.push(run_dec("command", &input, &sizes, true));
+                }
                 utf8.push(run_utf8(&input, &sizes));
             }
             (runs, utf8)
